@@ -79,6 +79,42 @@ def use_repo():
         raise Infra(f"spec_classes imported from {src}, not from {REPO}")
 
 
+_COVERED = set()
+
+
+def start_line_coverage(pid):
+    """VERIF_COVERAGE=<dir>: record which lines of /repo/spec_classes the check executes (sys.monitoring, so it does not
+    interfere with the sys.settrace based scheduler / fault injectors); written to <dir>/<pid>.json at exit. Used by
+    tools/coverage_report.py to list library lines no check reaches (a change there cannot be noticed by the tie)."""
+    out = os.environ.get("VERIF_COVERAGE")
+    if not out or not hasattr(sys, "monitoring"):
+        return
+    import atexit
+
+    mon = sys.monitoring
+    tool = 4
+    try:
+        mon.use_tool_id(tool, "verif-coverage")
+    except ValueError:
+        return
+    root = str((REPO / "spec_classes").resolve())
+
+    def on_line(code, line):
+        fn = code.co_filename
+        if fn.startswith(root):
+            _COVERED.add((fn[len(str(REPO.resolve())) + 1 :], line))
+        return mon.DISABLE
+
+    mon.register_callback(tool, mon.events.LINE, on_line)
+    mon.set_events(tool, mon.events.LINE)
+
+    def dump():
+        Path(out).mkdir(parents=True, exist_ok=True)
+        (Path(out) / f"{pid}.json").write_text(json.dumps(sorted(_COVERED)))
+
+    atexit.register(dump)
+
+
 # ----------------------------------------------------------------------------
 # Lean side
 # ----------------------------------------------------------------------------
@@ -235,7 +271,7 @@ def _hash(x):
 
 
 def write_replay(pid, seed, n, payload):
-    REPLAYS.mkdir(exist_ok=True)
+    REPLAYS.mkdir(parents=True, exist_ok=True)
     p = REPLAYS / f"{pid}-{seed}-{n}.json"
     p.write_text(json.dumps(payload, indent=1, default=str))
     return p
@@ -344,6 +380,7 @@ def run_check(mod, tier, seed, replay=None):
 def _run_check(mod, tier, seed, replay=None):
     t0 = time.time()
     pid = mod.PID
+    start_line_coverage(pid)
     use_repo()
     if hasattr(mod, "setup"):
         mod.setup()
@@ -656,7 +693,7 @@ def _run_check(mod, tier, seed, replay=None):
         "wall_s": round(time.time() - t0, 2),
         "violations": 1 if violation else 0,
     }
-    EVIDENCE.mkdir(exist_ok=True)
+    EVIDENCE.mkdir(parents=True, exist_ok=True)
     (EVIDENCE / f"{pid}.json").write_text(json.dumps(evidence, indent=1, default=str))
 
     print(
